@@ -2,6 +2,7 @@
 Correspondence: Lean `ParamVerif.Copy` (object graph, watcher tables, `__setstate__` as written,
 graph copy) vs `copy.deepcopy` / `pickle` on real Parameterized objects of the module-level classes
 below; oracle = lean/ParamVerif/Store/CopySpec.lean on what the real code did."""
+import contextlib
 import copy
 import functools
 import glob
@@ -39,7 +40,9 @@ ASSUMPTIONS = [
     'lambdas, references (allow_refs), async methods and class-level watchers are outside the model',
     'a copy taken inside an open batch (case key inbatch): the model has no batch state on objects, it sees the completed batched update followed by the '
     'copy; the harness takes the copy inside `batch_call_watchers(obj)` after the assignments and compares the copy with a twin whose batch was completed, '
-    'and what the original delivers on leaving the batch with what the twin delivered (a difference there is reported as a mismatch, not as a counterexample)',
+    'and what the original delivers on leaving the batch with what the twin, which nobody copied, delivered (observation `batch_exit`, part of the oracle; the model predicts both)',
+    'a post operation `within` makes its assignments inside a batch_call_watchers / discard_events context opened on ANOTHER object of the same graph; '
+    'batching is a matter of the object whose parameter is set, so the model runs the assignments without the context',
 ]
 RULE = ('histories of object creation, sets, in-place mutations, per-instance Parameter edits, ordinary attributes, explicit '
         'watchers and sub-object attachment/detachment (pre) x copy.deepcopy and pickle protocols 2-5 of the root x histories '
@@ -47,7 +50,7 @@ RULE = ('histories of object creation, sets, in-place mutations, per-instance Pa
         'both graphs at copy time and after every later operation, invocation logs with the side of every invoked object, '
         'and the same copy-side operations on a twin of the original. non-trivial = the copy succeeded, >=2 post operations, '
         'at least one watcher in the copied graph; distinct = distinct canonical case')
-COVERAGE_TARGETS = ['copy:ok', 'pre:copy-inside-open-batch', 'pre:copy-inside-open-batch-on-subobject', 'post:copy-taken-in-batch-fires-at-once', 'pre:duplicate-watcher', 'pre:same-class-cross-watcher', 'root:Root3', 'pre:depth2-dependency-wired', 'post:update-batch', 'pre:multi-name-watcher', 'post:replace-leaf-on-copy', 'post:replace-mid-on-copy', 'pre:slot-watcher', 'pre:partial-watcher', 'pre:slots-attribute', 'post:pedit-bounds-with-slot-watcher', 'selector:set-after-copy', 'selector:named-after-copy', 'selector:own-copy-before-copy', 'mech:deepcopy', 'mech:pickle2', 'mech:pickle3', 'mech:pickle4', 'mech:pickle5',
+COVERAGE_TARGETS = ['copy:ok', 'pre:slots-attribute-holding-None', 'post:batch-context-on-another-object:copy', 'post:discard-context-on-another-object:copy', 'pre:copy-inside-open-batch', 'pre:copy-inside-open-batch-on-subobject', 'post:copy-taken-in-batch-fires-at-once', 'pre:duplicate-watcher', 'pre:same-class-cross-watcher', 'root:Root3', 'pre:depth2-dependency-wired', 'post:update-batch', 'pre:multi-name-watcher', 'post:replace-leaf-on-copy', 'post:replace-mid-on-copy', 'pre:slot-watcher', 'pre:partial-watcher', 'pre:slots-attribute', 'post:pedit-bounds-with-slot-watcher', 'selector:set-after-copy', 'selector:named-after-copy', 'selector:own-copy-before-copy', 'mech:deepcopy', 'mech:pickle2', 'mech:pickle3', 'mech:pickle4', 'mech:pickle5',
                     'root:Top', 'root:Plain', 'root:Sub', 'pre:sub-attached-with-dependency', 'pre:sub-attached-no-dependency',
                     'pre:detached-again', 'pre:pedit', 'pre:attr', 'pre:explicit-watcher', 'pre:cross-object-watcher',
                     'post:orig', 'post:copy', 'post:attach-new-sub', 'post:log-nonempty']
@@ -467,6 +470,20 @@ class _Side:
             self.ref(op['o']).param.watch(getattr(self.ref(op['target']), op['cb']), list(op['ps']))
         elif o == 'update':
             self.ref(op['o']).param.update(**{k: self.arg(v) for k, v in op['kvs']})
+        elif o == 'within':
+            # assignments made while a batch / discard context is open on ANOTHER object: batching is a matter of the
+            # object whose parameter is set, so the context must make no difference
+            on = self.ref(op['on'])
+            body = [(self.ref(b['o']), b['p'], self.arg(b['a'])) for b in op['body']]
+            if any(b['op'] != 'set' for b in op['body']):
+                raise RuntimeError('within: only assignments')
+            if any(t is on for t, _, _ in body):
+                ctx = contextlib.nullcontext()
+            else:
+                ctx = (param.parameterized.batch_call_watchers if op['kind'] == 'batch' else param.parameterized.discard_events)(on)
+            with ctx:
+                for t, p, v in body:
+                    setattr(t, p, v)
         elif o == 'watchPartial':
             self.ref(op['o']).param.watch(functools.partial(getattr(self.ref(op['target']), op['cb']), 'T'), [op['p']])
         elif o == 'watchSlot':
@@ -524,14 +541,11 @@ def run_impl(case):
                 raise RuntimeError('a watcher ran inside the open batch')
 
         def leave_batch():
-            """the original leaves its batch: it must deliver what the completed batch of the twin delivered"""
+            """the original leaves its batch; what it delivers, and what the completed batch of the twin (never copied) delivered"""
             del LOG[:]
             cm.__exit__(None, None, None)
             o1, to = _order(main.ref(case['root'])), _order(twin.ref(case['root']))
-            got = [[_label(o1, obj), meth] for obj, meth in LOG]
-            want = [[_label(to, obj), meth] for obj, meth in tlog]
-            if got != want:
-                raise RuntimeError(f'the original left the batch delivering {got}, a batch without a copy inside delivers {want}')
+            return {'got': [[_label(o1, obj), meth] for obj, meth in LOG], 'twin': [[_label(to, obj), meth] for obj, meth in tlog]}
 
         root, troot = main.ref(case['root']), twin.ref(case['root'])
         obs = {'copy_err': None, 'orig_at': snapshot(root), 'copy_at': None, 'shared': 0, 'post': []}
@@ -548,7 +562,7 @@ def run_impl(case):
                 cm.__exit__(None, None, None)
             return obs
         if cm is not None:
-            leave_batch()
+            obs['batch_exit'] = leave_batch()
         main.cp, twin.cp = c, troot
         obs['copy_at'] = snapshot(c)
         o1, o2 = _order(root), _order(c)
@@ -629,6 +643,10 @@ def watch(o, p, target, cb='cb'):
 
 def update(o, **kvs):
     return {'op': 'update', 'o': o, 'kvs': [[k, v] for k, v in kvs.items()]}
+
+
+def within(kind, on, *body):
+    return {'op': 'within', 'kind': kind, 'on': on, 'body': list(body)}
 
 
 def watchp(o, p, target):
@@ -717,6 +735,23 @@ def directed():
                     ('copy', set_(CP('mid', 'leaf'), 'x', 1))])
         # both slots, one sub-object shared by two parents
         yield case([new(SUB, x=1), new(SUB, y=2), new(TOP, a=R(H(0)), b=R(H(1))), new(TOP, a=R(H(0)))], H(2), mech, [])
+        # after the copy, a batch / discard_events context open on ONE object of the copied graph while ANOTHER one is assigned:
+        # every object has a dispatch state of its own, the assignments are delivered at once and in full
+        yield case([new(SUB, x=1), new(TOP, a=R(H(0)), n=3)], H(1), mech,
+                   [('copy', within('batch', CP(), set_(CP('a'), 'x', 5), set_(CP('a'), 'y', 6))),
+                    ('copy', within('discard', CP(), set_(CP('a'), 'x', 7))),
+                    ('copy', within('batch', CP('a'), set_(CP(), 'n', 4), set_(CP(), 'n', 5))),
+                    ('copy', within('discard', CP('a'), set_(CP(), 'n', 6))),
+                    ('orig', within('discard', H(1), set_(H(0), 'x', 9))), ('orig', within('batch', H(0), set_(H(1), 'n', 8), set_(H(1), 'n', 9)))])
+        yield case([new(SUB, x=1), new(PLAIN, a=R(H(0))), watch(H(0), ['x', 'y'], H(1)), watch(H(1), 'n', H(0))], H(1), mech,
+                   [('copy', within('discard', CP(), set_(CP('a'), 'x', 2), set_(CP('a'), 'y', 3))), ('copy', within('batch', CP('a'), set_(CP(), 'n', 9))),
+                    ('orig', within('batch', H(1), set_(H(0), 'y', 4)))])
+        # an attribute kept in __slots__ (and one in __dict__) that holds None when the copy is taken
+        yield case([new(SUB, x=1), setattr_(H(0), 'tag', None)], H(0), mech,
+                   [('copy', setattr_(CP(), 'tag', 3)), ('orig', setattr_(H(0), 'tag', [1])), ('copy', setattr_(CP(), 'tag', None))])
+        yield case([new(SUB, x=1), new(PLAIN, a=R(H(0))), setattr_(H(0), 'tag', 5), setattr_(H(0), 'tag', None), setattr_(H(1), 'tag', None),
+                    setattr_(H(1), 'extra', None)], H(1), mech,
+                   [('copy', setattr_(CP('a'), 'tag', [2])), ('copy', mutattr(CP('a'), 'tag', 3)), ('orig', setattr_(H(1), 'extra', 4)), ('copy', setattr_(CP(), 'extra', [6]))])
         # the copy is taken INSIDE an open batch (534cb04): the copy is not in batch mode and has nothing queued — its
         # watchers fire at once, like those of an object whose batch was completed; the original delivers its queue once
         yield case([new(SUB, x=1), watch(H(0), ['x', 'y'], H(0)), update(H(0), x=3, y=4)], H(0), mech,
@@ -802,7 +837,7 @@ def _random_case(rng, mech):
                 nd['attrs'][name] = 'list'
                 return setattr_(target_ref, name, [rng.randint(1, 9)])
             nd['attrs'][name] = 'int'
-            return setattr_(target_ref, name, rng.randint(1, 9))
+            return setattr_(target_ref, name, rng.randint(1, 9) if rng.random() < 0.75 else None)
         if r < 0.8:
             if cls != SUB and rng.random() < 0.6:
                 return (set_(target_ref, 'choice', rng.randint(1, 6)) if rng.random() < 0.5
@@ -872,6 +907,17 @@ def _random_case(rng, mech):
         free = [h for h, s in fresh_owner.items() if s in ('free', side)]
         # choose the object: the root or an attached sub-object
         slots = [s for s in ('a', 'b') if rnode.get(s) is not None]
+        if slots and rng.random() < 0.12:
+            # a batch / discard context on one object of the graph while another one is assigned
+            sl = rng.choice(slots)
+            sub_nd, sub_ref = shadow[rnode[sl]], (CP(sl) if side == 'copy' else H(root, sl))
+            root_ref = CP() if side == 'copy' else H(root)
+            (on_ref, tgt_ref, tgt_nd) = (root_ref, sub_ref, sub_nd) if rng.random() < 0.5 else (sub_ref, root_ref, rnode)
+            t_ints = [p for p in (['x', 'y'] if tgt_nd['cls'] == SUB else ['n']) if p not in tgt_nd['const']]
+            if t_ints:
+                body = [set_(tgt_ref, rng.choice(t_ints), rng.randint(0, 5)) for _ in range(rng.randint(1, 3))]
+                post.append((side, within(rng.choice(['batch', 'discard']), on_ref, *body)))
+            continue
         if slots and rng.random() < 0.45:
             s = rng.choice(slots)
             nd = shadow[rnode[s]]
@@ -1000,6 +1046,8 @@ def tags(case, impl):
             t.append('pre:slot-watcher')
         if any(k == 'tag' for o in snap for k, _ in o['attrs']):
             t.append('pre:slots-attribute')
+        if any(k == 'tag' and v is None for o in snap for k, v in o['attrs']):
+            t.append('pre:slots-attribute-holding-None')
         if any(w[1] == 'bound' and w[0] != w[2] for o in snap for _, ws in o['watchers'] for w in ws):
             t.append('pre:cross-object-watcher')
         sets = [op for op in case['pre'] if op['op'] == 'set' and op['p'] in ('a', 'b') and op['a'] is None]
@@ -1027,6 +1075,8 @@ def tags(case, impl):
             t.append('post:' + p['side'])
             if p['op']['op'] == 'update':
                 t.append('post:update-batch')
+            if p['op']['op'] == 'within':
+                t.append(f"post:{p['op']['kind']}-context-on-another-object:{p['side']}")
             if p['side'] == 'copy' and p['op']['op'] == 'set' and p['op']['p'] == 'leaf':
                 t.append('post:replace-leaf-on-copy')
             if p['side'] == 'copy' and p['op']['op'] == 'set' and p['op']['p'] == 'mid':
